@@ -55,6 +55,11 @@ type c17Step struct {
 	Wait bool   `json:"wait"` // wait for this change's completion signal before the next step
 	Via  string `json:"via"`  // "sem": l.sem.SetMaxCount (done observed); "listener": l.SetMaxConnection (grow/same only)
 	Gap  int    `json:"gap"`  // accepts to let pass before this step is issued
+	// saturated scripts only: the step is issued back-to-back with the previous one (nobody waits
+	// for a done channel, nothing closes); Yield = scheduler yields before it, Settle = give
+	// permits released by an already applied grow the chance to be taken up first
+	Yield  int  `json:"yield,omitempty"`
+	Settle bool `json:"settle,omitempty"`
 }
 
 type c17Script struct {
@@ -64,7 +69,10 @@ type c17Script struct {
 	MinIter    int       `json:"minIter"`
 	HoldMax    int       `json:"holdMax"`
 	AcceptErrs int       `json:"acceptErrs"`
-	Steps      []c17Step `json:"steps"`
+	// Saturate: every accepted connection is held open until the whole change script has been
+	// issued (listener full, Accept blocked, more dials waiting), then the normal churn starts
+	Saturate bool      `json:"saturate,omitempty"`
+	Steps    []c17Step `json:"steps"`
 }
 
 type c17Change struct {
@@ -85,9 +93,14 @@ type c17Mon struct {
 	changes     []*c17Change
 	epOverlap   bool
 	epGrowOverS bool
-	epKind      string
-	lastApplied string
-	accepts     int
+	// an identical repeat (same value as the cap set last) was issued while a shrink had not
+	// been applied yet / a grow was issued after such a repeat while a shrink was still unapplied
+	epSameOverS          bool
+	epGrowAfterSameOverS bool
+	prevSameOverS        bool // the change issued last was such a repeat
+	epKind               string
+	lastApplied          string
+	accepts              int
 	closes      int
 	maxGauge    int
 	freedAtCap  bool
@@ -103,6 +116,8 @@ func (m *c17Mon) ctxLocked() string {
 	switch {
 	case m.pending == 0:
 		return "steady:after-" + m.lastApplied
+	case m.epGrowAfterSameOverS:
+		return "overlap:grow-issued-after-identical-repeat-over-unapplied-shrink"
 	case m.epGrowOverS:
 		return "overlap:grow-issued-over-unapplied-shrink"
 	case m.epOverlap:
@@ -284,18 +299,33 @@ func (m *c17Mon) issue(ll *LimitListener, st c17Step) *c17Change {
 	from := m.lastIssued
 	ch := &c17Change{from: from, to: st.Cap}
 	kind := c17Kind(from, st.Cap)
+	sameOverS, growAfterSame, growRightAfterSame := false, false, false
 	if m.pending > 0 {
 		m.epOverlap = true
-		if st.Cap > from {
-			for _, o := range m.changes {
-				if o.to < o.from && !c17Closed(o.done) {
-					m.epGrowOverS = true
+		shrinkUnapplied := false
+		for _, o := range m.changes {
+			if o.to < o.from && !c17Closed(o.done) {
+				shrinkUnapplied = true
+			}
+		}
+		if shrinkUnapplied {
+			switch kind {
+			case "grow":
+				m.epGrowOverS = true
+				if m.epSameOverS {
+					m.epGrowAfterSameOverS = true
+					growAfterSame = true
+					growRightAfterSame = m.prevSameOverS
 				}
+			case "same":
+				m.epSameOverS = true
+				sameOverS = true
 			}
 		}
 	} else {
 		m.epKind = kind
 	}
+	m.prevSameOverS = sameOverS
 	if st.Cap > m.bound {
 		m.bound = st.Cap
 	}
@@ -305,6 +335,15 @@ func (m *c17Mon) issue(ll *LimitListener, st c17Step) *c17Change {
 	m.note(fmt.Sprintf("issue %d->%d via %s (outstanding %d, open %d)", from, st.Cap, st.Via, m.pending, m.gauge))
 	m.mu.Unlock()
 	m.r.Count("change_"+kind, 1)
+	if sameOverS {
+		m.r.Count("ll_identical_repeat_issued_over_unapplied_shrink", 1)
+	}
+	if growAfterSame {
+		m.r.Count("ll_grow_issued_after_identical_repeat_over_unapplied_shrink", 1)
+	}
+	if growRightAfterSame {
+		m.r.Count("ll_grow_issued_right_after_identical_repeat_over_unapplied_shrink", 1)
+	}
 
 	if st.Via == "listener" {
 		ll.SetMaxConnection(uint32(st.Cap))
@@ -344,6 +383,8 @@ func (m *c17Mon) applied(ch *c17Change) {
 	if m.pending == 0 {
 		m.bound = m.lastIssued
 		switch {
+		case m.epGrowAfterSameOverS:
+			m.lastApplied = "overlap-grow-after-identical-repeat-over-shrink"
 		case m.epGrowOverS:
 			m.lastApplied = "overlap-grow-over-shrink"
 		case m.epOverlap:
@@ -352,6 +393,7 @@ func (m *c17Mon) applied(ch *c17Change) {
 			m.lastApplied = m.epKind
 		}
 		m.epOverlap, m.epGrowOverS, m.epKind = false, false, ""
+		m.epSameOverS, m.epGrowAfterSameOverS, m.prevSameOverS = false, false, false
 		m.changes = nil
 		m.note(fmt.Sprintf("all applied: cap=%d open=%d", m.bound, m.gauge))
 	}
@@ -369,7 +411,8 @@ func (m *c17Mon) isApplied(ch *c17Change) bool {
 
 func c17GenScript(rng *rand.Rand, i int) *c17Script {
 	kinds := []string{"steady", "grow", "shrink-below-usage", "shrink-then-grow-b2b", "repeated-identical",
-		"grow-then-shrink-b2b", "shrink-shrink-b2b", "sequential-mix", "random-mix", "shrink-grow-sequential"}
+		"grow-then-shrink-b2b", "shrink-shrink-b2b", "sequential-mix", "random-mix", "shrink-grow-sequential",
+		"saturated-b2b-mix"}
 	s := &c17Script{Kind: kinds[i%len(kinds)], Clients: 64, MinIter: 2 + rng.Intn(3), HoldMax: []int{0, 3, 20, 60}[rng.Intn(4)], AcceptErrs: rng.Intn(3)}
 	capv := func() int { return 1 + rng.Intn(12) }
 	gap := func() int { return []int{0, 1, 5, 20, 40}[rng.Intn(5)] }
@@ -431,6 +474,19 @@ func c17GenScript(rng *rand.Rand, i int) *c17Script {
 		mid := 2 + rng.Intn(cur-2)
 		add(mid, false, 10+gap())
 		add(1+rng.Intn(mid-1), true, 0)
+	case "saturated-b2b-mix":
+		// 3-6 changes issued back-to-back while the listener is full and nothing closes: each
+		// one is a shrink below the usage, an identical repeat of the value set last (what every
+		// HTTPServer reload that keeps maxConnections does), a grow, or a return to an earlier
+		// value (re-shrink / grow back)
+		s.Saturate = true
+		s.Cap0 = 2 + rng.Intn(9)
+		cur = s.Cap0
+		for _, c := range c17SaturatedCaps(rng, s.Cap0) {
+			st := c17Step{Cap: c, Via: via(cur, c), Yield: []int{0, 0, 1, 5}[rng.Intn(4)], Settle: rng.Intn(4) == 0}
+			s.Steps = append(s.Steps, st)
+			cur = c
+		}
 	case "sequential-mix":
 		n := 3 + rng.Intn(4)
 		for k := 0; k < n; k++ {
@@ -443,6 +499,37 @@ func c17GenScript(rng *rand.Rand, i int) *c17Script {
 		}
 	}
 	return s
+}
+
+// c17SaturatedCaps draws the caps of a back-to-back script: 3-6 values, each a shrink, an
+// identical repeat, a grow or a return to a value used earlier (caps 1..20).
+func c17SaturatedCaps(rng *rand.Rand, cap0 int) []int {
+	n := 3 + rng.Intn(4)
+	cur := cap0
+	seen := []int{cap0}
+	var out []int
+	for k := 0; k < n; k++ {
+		c := cur
+		switch x := rng.Intn(10); {
+		case x < 4:
+			if cur > 1 {
+				c = 1 + rng.Intn(cur-1)
+			}
+		case x < 7:
+			// identical repeat
+		case x < 9:
+			c = cur + 1 + rng.Intn(4)
+		default:
+			c = seen[rng.Intn(len(seen))]
+		}
+		if c > 20 {
+			c = 20
+		}
+		out = append(out, c)
+		seen = append(seen, c)
+		cur = c
+	}
+	return out
 }
 
 func (s *c17Script) hasListenerVia() bool {
@@ -496,6 +583,15 @@ func c17RunScript(r *kit.Run, s *c17Script, seed int64) {
 		}
 	}()
 
+	// saturated scripts: accepted connections stay open until the gate opens
+	gate := make(chan struct{})
+	var gateOnce sync.Once
+	openGate := func() { gateOnce.Do(func() { close(gate) }) }
+	if !s.Saturate {
+		openGate()
+	}
+	defer openGate()
+
 	var stop int32
 	var dialSeq int64
 	dialHold := func(hold int, sleepy bool) bool {
@@ -508,6 +604,11 @@ func c17RunScript(r *kit.Run, s *c17Script, seed int64) {
 		}
 		select {
 		case <-d.accepted:
+		case <-m.abort:
+			return false
+		}
+		select {
+		case <-gate:
 		case <-m.abort:
 			return false
 		}
@@ -543,7 +644,32 @@ func c17RunScript(r *kit.Run, s *c17Script, seed int64) {
 
 	// controller: the change script
 	errsLeft := s.AcceptErrs
+	full := func() bool {
+		m.mu.Lock()
+		defer m.mu.Unlock()
+		return m.gauge >= m.bound
+	}
+	if s.Saturate {
+		if m.waitUntil("the listener to fill up to its cap", full) {
+			// lower bound only: lets the accept loop park in its next acquire, ahead of
+			// whatever the changes will queue
+			time.Sleep(300 * time.Microsecond)
+			if full() && len(in.q) > 0 {
+				r.Count("ll_b2b_scripts_started_full_with_dials_waiting", 1)
+			}
+		}
+	}
 	for _, st := range s.Steps {
+		for k := 0; k < st.Yield; k++ {
+			runtime.Gosched()
+		}
+		if st.Settle {
+			// not a verdict: up to ~2ms for the listener to be full again (after an applied
+			// grow); with an unapplied change nothing moves anyway
+			for k := 0; k < 40 && !full(); k++ {
+				time.Sleep(50 * time.Microsecond)
+			}
+		}
 		m.mu.Lock()
 		target := m.accepts + st.Gap
 		m.mu.Unlock()
@@ -575,6 +701,12 @@ func c17RunScript(r *kit.Run, s *c17Script, seed int64) {
 			r.Count("accept_errors_injected", 1)
 		default:
 		}
+	}
+	if s.Saturate {
+		// nothing has closed yet: give an accept beyond the cap in force the chance to show
+		// (lower bound on real time only), then let the connections go
+		c17Quiesce(m)
+		openGate()
 	}
 	atomic.StoreInt32(&stop, 1)
 	cdone := make(chan struct{})
@@ -612,6 +744,21 @@ func c17RunScript(r *kit.Run, s *c17Script, seed int64) {
 	case <-srvDone:
 	case <-time.After(30 * time.Second):
 		r.Note("accept loop did not exit within 30s after Close (not a verdict)")
+	}
+}
+
+// c17Quiesce sleeps at least 2ms and then until no accept/close/applied event has been seen for
+// 1ms (at most ~100ms).  It is only a lower bound on real time, never a verdict.
+func c17Quiesce(m *c17Mon) {
+	time.Sleep(2 * time.Millisecond)
+	last := atomic.LoadInt64(&m.events)
+	for k := 0; k < 100; k++ {
+		time.Sleep(time.Millisecond)
+		e := atomic.LoadInt64(&m.events)
+		if e == last {
+			return
+		}
+		last = e
 	}
 }
 
@@ -748,7 +895,7 @@ func c17Probe(r *kit.Run, m *c17Mon, in *c17Inner, s *c17Script) {
 func TestVerif_C17_LimitListener(t *testing.T) {
 	r := kit.Start(t, "C17")
 	defer r.Finish()
-	r.Rule("scripts over a real LimitListener wrapping a counting in-memory listener: 64 clients dial/hold/close concurrently (2-4+ connections each, random holds, handler closes twice in 1/4 of the connections, injected temporary Accept errors) while a controller runs a cap-change script of kind steady | grow | shrink-below-usage | shrink-then-grow back-to-back | shrink-grow sequential | repeated-identical | grow-then-shrink b2b | shrink-shrink b2b | sequential mix | random mix (caps 1..20, completion observed through SetMaxCount's done channel; grows partly through SetMaxConnection); oracle: open connections <= cap in force at every accept, no connection closed before its client closed, exact free-capacity audit and cap+2 probe at the final quiescent point; distinct = (kind, cap0, #steps, max open, final cap)")
+	r.Rule("scripts over a real LimitListener wrapping a counting in-memory listener: 64 clients dial/hold/close concurrently (2-4+ connections each, random holds, handler closes twice in 1/4 of the connections, injected temporary Accept errors) while a controller runs a cap-change script of kind steady | grow | shrink-below-usage | shrink-then-grow back-to-back | shrink-grow sequential | repeated-identical | grow-then-shrink b2b | shrink-shrink b2b | sequential mix | random mix | saturated back-to-back mix (every accepted connection is held open, listener full, Accept blocked and dials waiting; then 3-6 changes are issued back-to-back without waiting for any done channel and without any close: shrinks below the usage, identical repeats of the value set last - also over a shrink that has not been applied -, grows and returns to earlier values; only then the connections are let go) (caps 1..20, completion observed through SetMaxCount's done channel; grows partly through SetMaxConnection); oracle: open connections <= cap in force at every accept, no connection closed before its client closed, exact free-capacity audit and cap+2 probe at the final quiescent point; distinct = (kind, cap0, #steps, max open, final cap)")
 	r.Assume("caps >= 1 (HTTPServer spec minimum); cap in force while changes are outstanding = max of the caps involved; 'applied' = done channel of Semaphore.SetMaxCount closed for every outstanding change")
 	n := r.N(600, 20000)
 	for i := 0; i < n; i++ {
@@ -763,7 +910,8 @@ func TestVerif_C17_LimitListener(t *testing.T) {
 		}
 		c17RunScript(r, s, rng.Int63())
 	}
-	for _, k := range []string{"accepts_reaching_cap", "held_back_dials_seen_at_cap", "released_capacity_reused", "change_grow", "change_shrink", "change_same", "capacity_audits", "final_probe_reuse_ok", "scripts_completed"} {
+	for _, k := range []string{"accepts_reaching_cap", "held_back_dials_seen_at_cap", "released_capacity_reused", "change_grow", "change_shrink", "change_same", "capacity_audits", "final_probe_reuse_ok", "scripts_completed",
+		"ll_b2b_scripts_started_full_with_dials_waiting", "ll_identical_repeat_issued_over_unapplied_shrink", "ll_grow_issued_right_after_identical_repeat_over_unapplied_shrink"} {
 		r.Require(k, 1)
 	}
 }
